@@ -430,7 +430,8 @@ func Gen(rng *rand.Rand, id int, p Profile) *Corpus {
 					if start+l > len(rs) {
 						break
 					}
-					if strings.IndexByte(string(rs[start:start+l]), 0) < 0 {
+					// symbols are names: no NUL, no newline (ctags-derived sections lie on one line)
+					if !strings.ContainsAny(string(rs[start:start+l]), "\x00\n") {
 						d.Syms = append(d.Syms, [2]int{start, start + l})
 						d.SymKinds = append(d.SymKinds, []string{"function", "class", "variable"}[rng.Intn(3)])
 					}
